@@ -34,6 +34,10 @@ Sugar(e, i) ==
     ELSE IF e.sugared_status \in {"err", "warn"} THEN Report(i, "SKIP", e.sugared_status)
     ELSE IF e.same /\ e.sugared_items > 0 THEN TRUE
     ELSE IF e.fam = "select" /\ e.sugared_kind = "enum" THEN Dev(i, "D_C09_selection", "a selection type is generated as a copy of the whole CHOICE")
+    \* D_C09_default_of_referenced_type: the DEFAULT literal of a component whose type is a reference to an INTEGER constrained
+    \* through a value reference is linked before that constraint is resolved when the referenced type sorts before its user
+    ELSE IF e.fam = "valref" /\ e.where = "reftype_default" /\ e.early
+         THEN Dev(i, "D_C09_default_of_referenced_type", "a DEFAULT literal is typed against a referenced type whose constraint is not resolved yet")
     ELSE Report(i, "MISMATCH", "a notation defined by expansion (" \o e.fam \o ") does not compile like its hand-expanded form")
 
 Init == l = 1
